@@ -32,7 +32,7 @@ RULE = ("classes over the serializable fragment (scalars, Enum by name, Array/Se
         "tells apart and the round trip must keep); plus, on the main stream, the round trip through JSON TEXT and "
         "serialize_field(Class.f, x.f) against the class-level document")
 ASSUMPTIONS = [
-    "mapper-free (key-renaming mappers: C07); _enable_undefined_value classes are not in the Lean model: the statement is executed on them on the real code only (oracle-only part of the extras stream)",
+    "mapper-free (key-renaming mappers: C07); cases with no model line (a few wrappers of not-modelled leaves) are executed on the real code only (oracle-only part of the extras stream)",
     "float(Decimal), Decimal(str), strptime, strftime and the format tests of DateString/TimeString/IPV4/HostName are oracles of the model (tables per case; universally quantified in the theorems); a Decimal that is not a double is in the lossy clause",
     "structures held at untyped positions (Anything, untyped Array/Map) are outside the model",
 ]
